@@ -266,7 +266,7 @@ def documented_env(id_: str) -> Any:
     return cls()
 
 
-def shipped_check(stats: Stats, seed: int, reverse: bool = False) -> None:
+def shipped_check(stats: Stats, seed: int, reverse: bool = False) -> Dict[str, str]:
     """All shipped ids instantiate (Sokoban through the DOWNLOAD stub); two make(id) calls give equal
     specs and identical behaviour on a short shared run."""
     import jax
@@ -280,6 +280,8 @@ def shipped_check(stats: Stats, seed: int, reverse: bool = False) -> None:
     if len(ids) < 25:
         raise Violation("C18", "registry", "shipped", "shipped_ids_missing", f"only {len(ids)} ids registered: {ids}")
     rng = util.sub_rng(seed, "c18shipped")
+    digests: Dict[str, str] = {}
+    keys = {i: int(rng.integers(0, 2**31 - 1)) for i in sorted(ids)}  # per id, independent of the order of the makes
     for id_ in ids:
         try:
             if DOCUMENTED_CLASS.get(id_) in TIME_LIMITED:
@@ -309,7 +311,8 @@ def shipped_check(stats: Stats, seed: int, reverse: bool = False) -> None:
                 if repr(getattr(e1, sp)) != repr(getattr(e3, sp)):
                     raise Violation("C18", "registry", "shipped", "shipped_id_differs_from_documented_configuration",
                                     f"{id_}: {sp} of make(id) differs from the directly constructed documented configuration")
-        key = jax.random.PRNGKey(int(rng.integers(0, 2**31 - 1)))
+        key = jax.random.PRNGKey(keys[id_])
+        trace_: List[str] = []
         envs_ = [e1, e2] + ([e3] if e3 is not None else [])
         names_ = ["first make(id)", "second make(id)", "documented configuration"]
         cur = []
@@ -337,11 +340,14 @@ def shipped_check(stats: Stats, seed: int, reverse: bool = False) -> None:
                 m = np.asarray(m)
                 if m.any() and m.ndim == 1:
                     a = jnp.asarray(int(np.flatnonzero(m)[0]), dtype=e1.action_spec.dtype)
+            trace_.append(util.tree_digest(util.to_np(cur[0])))
             cur = [st(c[0], a) for st, c in zip(steps, cur)]
             stats.steps += 1
         stats.check("shipped_ids_made_twice")
         if e3 is not None:
             stats.check("shipped_ids_vs_documented_configuration")
+        digests[id_] = util.tree_digest(trace_)
+    return digests
 
 
 def run_task(prop: Any, task: Dict[str, Any]) -> Dict[str, Any]:
@@ -354,8 +360,9 @@ def run_task(prop: Any, task: Dict[str, Any]) -> Dict[str, Any]:
     seen = set()
     cfg = task["cfg"]
     if cfg["id"].startswith("shipped"):
+        shipped_digests = None
         try:
-            shipped_check(stats, task["seed"], reverse=cfg["id"].endswith("_rev"))
+            shipped_digests = shipped_check(stats, task["seed"], reverse=cfg["id"].endswith("_rev"))
             stats.runs += 1
             digests += [1, 2]
             nontrivial += [True, True]
@@ -412,11 +419,54 @@ def run_task(prop: Any, task: Dict[str, Any]) -> Dict[str, Any]:
         "runs": stats.runs, "attempted": stats.runs, "steps": stats.steps, "faults": stats.faults, "policies": {},
         "transports": {}, "probes": stats.probes, "checks": stats.checks, "states": b"", "n_states": 0,
         "digests": digests, "nontrivial": nontrivial, "samples": samples, "violations": violations, "det_ok": None,
-        "wall": time.time() - t0,
+        "wall": time.time() - t0, "shipped_digests": (shipped_digests if cfg["id"].startswith("shipped") else None),
     }
 
 
+def order_compare(results: List[Dict[str, Any]], seed: int) -> List[Dict[str, Any]]:
+    """Engine-side history check: what make(id) builds must not depend on which shipped ids were made earlier in the process
+    (the 'shipped' task makes them in ascending, the 'shipped_rev' task - another process - in descending order)."""
+    d = {r["task"]["cfg"]: r.get("shipped_digests") for r in results if r.get("shipped_digests")}
+    a, b = d.get("shipped"), d.get("shipped_rev")
+    if not a or not b:
+        return []
+    bad = sorted(i for i in a if i in b and a[i] != b[i])
+    if not bad:
+        return []
+    return [{"property": "C18", "env": "registry", "config": {"id": "shipped_order"}, "seed": seed, "shard": 0, "run": 0, "monitor": "shipped",
+             "class": "shipped_id_depends_on_make_order", "detail": f"the environment built by make({bad[0]!r}) behaves differently when the shipped ids are "
+             f"made in ascending and in descending order (ids affected: {bad[:4]})", "ops": {"order": True}, "ops_unminimised": {}}]
+
+
+def replay_order(v: Dict[str, Any], path: str) -> int:
+    """Two fresh interpreters: ascending and descending order of the makes; the per-id digests must agree."""
+    import json
+    import os
+    import subprocess
+    import sys
+
+    outs = []
+    for rev in (False, True):
+        code = ("import json,sys; from jsim.worker import _init_jax; _init_jax(); from jsim import regsim; from jsim.core import Stats; "
+                "print('XD', json.dumps(regsim.shipped_check(Stats(), int(sys.argv[1]), reverse=(sys.argv[2] == '1'))))")
+        p = subprocess.run([sys.executable, "-c", code, str(v["seed"]), "1" if rev else "0"], capture_output=True, text=True, env=dict(os.environ), timeout=3000)
+        line = [ln for ln in p.stdout.splitlines() if ln.startswith("XD ")]
+        if not line:
+            print(f"replay: helper interpreter failed: {p.stderr[-400:]}")
+            return 2
+        outs.append(json.loads(line[0][3:]))
+    bad = sorted(i for i in outs[0] if outs[0][i] != outs[1].get(i))
+    if bad:
+        print(f"VIOLATION property=C18 replay={path}")
+        print(f"  monitor=shipped class=shipped_id_depends_on_make_order: ids {bad[:4]} behave differently in ascending and descending make order")
+        return 1
+    print(f"replay: no violation of class {v['monitor']}/{v['class']} reproduced from {path}")
+    return 0
+
+
 def replay(v: Dict[str, Any], path: str) -> int:
+    if isinstance(v.get("ops"), dict) and v["ops"].get("order"):
+        return replay_order(v, path)
     try:
         if v["config"]["id"].startswith("shipped"):
             shipped_check(Stats(), v["seed"], reverse=v["config"]["id"].endswith("_rev"))
